@@ -3,6 +3,6 @@
 name="$1"; prop="$2"; shift 2
 cd /repo && git status --short | grep -q . && { echo "repo not clean"; exit 9; }
 git -C /repo apply "/verif/seeded/$name/patch.diff" || exit 8
-cd /verif && ./check "$prop" "$@" > "/tmp/seed_$name.log" 2>&1; rc=$?
+cd /verif && VERIF_SCRATCH_RUN=1 ./check "$prop" "$@" > "/tmp/seed_$name.log" 2>&1; rc=$?
 git -C /repo checkout -- .
 echo "exit=$rc"; grep -c "^VIOLATION" "/tmp/seed_$name.log"; grep "^VIOLATION\|failed obligation" "/tmp/seed_$name.log" | head -4; tail -1 "/tmp/seed_$name.log" | cut -c1-220
